@@ -471,7 +471,10 @@ pub fn check(ctx: &mut Ctx) {
     }
 
     // ---- operator consistency on pairs of scalar values (trichotomy etc.)
-    let pool: Vec<&str> = vec!["null", "true", "false", "0", "1", "-1", "2", "1.5", "-0.5", "41.99", "42", "\"\"", "\"a\"", "\"A\"", "\"b\"", "\"ab\"", "\"10\"", "\"9\"", "9007199254740992"];
+    // operands: JSON scalars, plus values that only a computation can produce (NaN, ±inf, a
+    // float result that is a whole number)
+    let pool: Vec<&str> = vec!["null", "true", "false", "0", "1", "-1", "2", "1.5", "-0.5", "41.99", "42", "\"\"", "\"a\"", "\"A\"", "\"b\"", "\"ab\"", "\"10\"", "\"9\"", "9007199254740992",
+        "@(z/z)", "@(o/z)", "@(z-o/z)", "@(h+h)", "@(h*3)"];
     let mut idx = 0;
     for a in &pool {
         for b in &pool {
@@ -479,10 +482,12 @@ pub fn check(ctx: &mut Ctx) {
             if idx % ctx.nshards != ctx.shard {
                 continue;
             }
-            let input = format!("{{\"a\":{},\"b\":{}}}\n", a, b).into_bytes();
+            let (ja, ea) = if let Some(e) = a.strip_prefix('@') { ("0", e.to_string()) } else { (*a, "a".to_string()) };
+            let (jb, eb) = if let Some(e) = b.strip_prefix('@') { ("0", e.to_string()) } else { (*b, "b".to_string()) };
+            let input = format!("{{\"a\":{},\"b\":{},\"z\":0,\"o\":1,\"h\":0.5}}\n", ja, jb).into_bytes();
             let mut truth = vec![];
             for op in ["<", "==", ">", "<=", ">=", "!="] {
-                let r = imp::run(&format!("* | json | where a {} b", op), &input, "json", 10);
+                let r = imp::run(&format!("* | json | where {} {} {}", ea, op, eb), &input, "json", 10);
                 truth.push(!r.stdout.is_empty());
             }
             let exactly_one = [truth[0], truth[1], truth[2]].iter().filter(|x| **x).count() == 1;
